@@ -28,7 +28,8 @@ type gspec struct {
 	Names  []string   `json:"names"`
 	Deps   [][]string `json:"deps"`
 	Dup    bool       `json:"dup,omitempty"`
-	Vars   bool       `json:"vars,omitempty"` // a variable with the same name as each task is declared above the tasks
+	Vars   bool       `json:"vars,omitempty"`  // a variable with the same name as each task is declared above the tasks
+	Twins  bool       `json:"twins,omitempty"` // every task dependency is preceded by a FILE dependency of the same spelling
 	Family string     `json:"family,omitempty"`
 	// exploration parameters
 	ReqMaxLen  int  `json:"req_max_len"`
@@ -96,6 +97,17 @@ func c03Specs(tier string) []gspec {
 		g.Vars, g.ReqMaxLen, g.OrderBound, g.Family = true, 2, -1, "undefined-dep-named-like-variable"
 		out = append(out, g)
 	}
+	// a file dependency spelled like the task dependency next to it
+	for n := 2; n <= 3; n++ {
+		for m := uint32(0); m < 1<<(n*n); m++ {
+			if n == 3 && m%5 != 0 {
+				continue
+			}
+			g := maskGraph(n, m)
+			g.Twins, g.ReqMaxLen, g.ReqRepeat, g.OrderBound, g.Family = true, 2, false, 1, "file-spelled-like-task"
+			out = append(out, g)
+		}
+	}
 	// duplicate definitions
 	for m := uint32(0); m < 16; m++ {
 		g := maskGraph(2, m)
@@ -152,7 +164,14 @@ func (g gspec) text() string {
 	var sb strings.Builder
 	def := func(i int) {
 		n := g.Names[i]
-		fmt.Fprintf(&sb, "task %s(%s) {\n    echo %s >> \"$VLOG\"\n    test ! -e \"$VCTL/fail_%s\"\n}\n\n", n, strings.Join(g.Deps[i], ", "), n, n)
+		deps := g.Deps[i]
+		if g.Twins {
+			deps = nil
+			for _, d := range g.Deps[i] {
+				deps = append(deps, `"`+d+`"`, d)
+			}
+		}
+		fmt.Fprintf(&sb, "task %s(%s) {\n    echo %s >> \"$VLOG\"\n    test ! -e \"$VCTL/fail_%s\"\n}\n\n", n, strings.Join(deps, ", "), n, n)
 	}
 	if g.Vars {
 		var vb strings.Builder
@@ -386,7 +405,7 @@ func runC03Case(sb *proj.Sandbox, g gspec, text string, req []string, failing st
 			var m map[string]any
 			json.Unmarshal(pool.MustJSON(cs), &m)
 			res.Viol = append(res.Viol, ev.Violation{Engine: "cfgmc-c03",
-				Key:   fmt.Sprintf("deps=%v dup=%v vars=%v request=%v order=%v failing=%s", g.Deps, g.Dup, g.Vars, req, c.Taken, failing),
+				Key:   fmt.Sprintf("deps=%v dup=%v vars=%v twins=%v request=%v order=%v failing=%s", g.Deps, g.Dup, g.Vars, g.Twins, req, c.Taken, failing),
 				Class: cls, What: fmt.Sprintf("graph %s request %v iteration-order choices %v: %s", depString(g), req, c.Taken, what), Case: m})
 		}
 	}
@@ -418,6 +437,11 @@ func c03Worker(args []string) {
 		g := specs[i]
 		text := g.text()
 		sb.ResetProject()
+		if g.Twins {
+			for _, n := range append(append([]string{}, g.Names...), "zz") {
+				os.WriteFile(filepath.Join(sb.Dir, n), []byte("file "+n+"\n"), 0o644)
+			}
+		}
 		fails := []string{""}
 		if g.Failing {
 			fails = append(fails, g.Names...)
@@ -522,6 +546,11 @@ func c03Replay(path string) int {
 	var cs c03Case
 	json.Unmarshal(pool.MustJSON(v.Case), &cs)
 	sb := proj.NewSandbox(filepath.Join(pool.Scratch, "replay"))
+	if cs.Spec.Twins {
+		for _, n := range append(append([]string{}, cs.Spec.Names...), "zz") {
+			os.WriteFile(filepath.Join(sb.Dir, n), []byte("file "+n+"\n"), 0o644)
+		}
+	}
 	res := c03Result{Outcomes: map[string]int64{}}
 	fmt.Printf("replaying C03: graph %s request %v order %v failing %q\n", depString(cs.Spec), cs.Request, cs.Order, cs.Failing)
 	runC03Case(sb, cs.Spec, cs.Spec.text(), cs.Request, cs.Failing, cs.Order, &res)
